@@ -149,7 +149,13 @@ func (c *Ctx) intrinsic(fn *ssa.Function, name string, args []Value) (Value, boo
 		if v, ok := c.inputs[nm]; ok {
 			return v, true
 		}
-		c.unsupported("verifTruthOf(%q): no such input on this path", nm)
+		return False, true // never asked on this path (the native side reads an absent entry as false too)
+	case "verifChoiceOf":
+		nm := c.strArg(args[0])
+		if v, ok := c.choices[nm]; ok {
+			return c.goInt(int64(v)), true
+		}
+		return c.goInt(-1), true
 	case "verifBound":
 		// verifBound(quick, thorough int) int
 		return args[c.Ex.Tier], true
@@ -1078,6 +1084,78 @@ func registerLibModels() {
 	m["unicode/utf8.DecodeRune"] = func(c *Ctx, fn *ssa.Function, a []Value) Value {
 		r, n := c.decodeRune(c.sliceBytes(a[0].(SliceVal)))
 		return TupleVal{r, c.goInt(int64(n))}
+	}
+	m["strings.Join"] = func(c *Ctx, fn *ssa.Function, a []Value) Value {
+		sl := a[0].(SliceVal)
+		sep := a[1].(*StrVal)
+		var out []*Term
+		for i := 0; i < sl.Len; i++ {
+			if i > 0 {
+				out = append(out, sep.B...)
+			}
+			out = append(out, sl.get(i).(*StrVal).B...)
+		}
+		return &StrVal{B: out}
+	}
+	m["strings.Repeat"] = func(c *Ctx, fn *ssa.Function, a []Value) Value {
+		s := a[0].(*StrVal)
+		n := c.sizeArg(a[1].(*Term), "strings.Repeat count")
+		if n < 0 {
+			c.goPanic("repeat", "strings: negative Repeat count")
+		}
+		var out []*Term
+		for i := 0; i < n; i++ {
+			out = append(out, s.B...)
+		}
+		return &StrVal{B: out}
+	}
+	// strings.Builder: the buffer is field 1 ("buf []byte") of the struct
+	sbAppend := func(c *Ctx, recv Value, bs []*Term) {
+		p := recv.(Ptr)
+		if p.IsNil() {
+			c.goPanic("nil", "nil *strings.Builder")
+		}
+		bp := p.sub(1)
+		cur := bp.load().(SliceVal)
+		elems := make([]Value, len(bs))
+		for i, b := range bs {
+			elems[i] = b
+		}
+		if len(elems) > 0 {
+			bp.store(c.appendSlice(cur, elems, nil))
+		}
+	}
+	m["(*strings.Builder).WriteString"] = func(c *Ctx, fn *ssa.Function, a []Value) Value {
+		s := a[1].(*StrVal)
+		sbAppend(c, a[0], s.B)
+		return TupleVal{c.goInt(int64(len(s.B))), Iface{}}
+	}
+	m["(*strings.Builder).WriteByte"] = func(c *Ctx, fn *ssa.Function, a []Value) Value {
+		sbAppend(c, a[0], []*Term{a[1].(*Term)})
+		return Iface{}
+	}
+	m["(*strings.Builder).WriteRune"] = func(c *Ctx, fn *ssa.Function, a []Value) Value {
+		bs := c.encodeRune(a[1].(*Term))
+		sbAppend(c, a[0], bs)
+		return TupleVal{c.goInt(int64(len(bs))), Iface{}}
+	}
+	m["(*strings.Builder).Write"] = func(c *Ctx, fn *ssa.Function, a []Value) Value {
+		bs := c.sliceBytes(a[1].(SliceVal))
+		sbAppend(c, a[0], bs)
+		return TupleVal{c.goInt(int64(len(bs))), Iface{}}
+	}
+	m["(*strings.Builder).String"] = func(c *Ctx, fn *ssa.Function, a []Value) Value {
+		cur := a[0].(Ptr).sub(1).load().(SliceVal)
+		return &StrVal{B: c.sliceBytes(cur)}
+	}
+	m["(*strings.Builder).Len"] = func(c *Ctx, fn *ssa.Function, a []Value) Value {
+		cur := a[0].(Ptr).sub(1).load().(SliceVal)
+		return c.goInt(int64(cur.Len))
+	}
+	m["(*strings.Builder).Grow"] = func(c *Ctx, fn *ssa.Function, a []Value) Value { return nil }
+	m["(*strings.Builder).Reset"] = func(c *Ctx, fn *ssa.Function, a []Value) Value {
+		a[0].(Ptr).sub(1).store(SliceVal{Nil: true})
+		return nil
 	}
 	m["reflect.ValueOf"] = func(c *Ctx, fn *ssa.Function, a []Value) Value {
 		return &OpaqueVal{Tag: "reflect.Value", X: a[0]}
